@@ -27,7 +27,7 @@ TSubjectTo == IsEvent("SubjectTo") /\ SubjectTo(Ev.cons) /\ Consume
 TSetBound  == IsEvent("SetBound") /\ SetBound /\ Consume
 TSetParam  == IsEvent("SetParam") /\ SetParam /\ Consume
 TReadVars  == IsEvent("ReadVars") /\ ReadVars /\ Ev.namesOK /\ Consume
-TSolveCall == IsEvent("SolveCall") /\ SolveBegin(Ev.m, Ev.strict) /\ Consume
+TSolveCall == IsEvent("SolveCall") /\ SolveBeginOpts(Ev.m, Ev.strict, Ev.opts) /\ Consume
 \* the integrality warning: exactly one per gate passage, naming exactly the non-continuous variables
 TWarn      == IsEvent("Warn") /\ Gate /\ call'.warned = call.warned + 1 /\ Ev.namesOK /\ Consume
 \* the solver seam is entered: everything observable about what it is handed must be what the spec says
@@ -36,7 +36,8 @@ TSolverEnter ==
     /\ Ev.fn = (IF call.route = "lp" THEN "linprog" ELSE "minimize")
     /\ Ev.method = call.method
     /\ (call.route = "nlp" =>
-          /\ Ev.has_hess = (call.method \in HessianMethods)
+          /\ Ev.has_hess = HandsHessian
+          /\ Ev.optsOK                  \* x0 / tol / maxiter reach the solver exactly as the caller gave them (or not at all)
           /\ Ev.has_jac = (call.method \notin DerivFree)
           /\ Ev.hook_swapped = (hook = "handler")
           /\ Ev.n_cons = Len(cons))
